@@ -1304,6 +1304,29 @@ def gen_case(r, tag):
             return []
         return [r.choice(["same", "same", "same", "now", "now", "older"])]
 
+    # topics no tunable is bound to, written by clients only: here the TIMESTAMPS are compared too (`ntt`; under
+    # the paused clock they are reproducible) -- that ties the model's account of ntcore (stale updates dropped,
+    # duplicates keep their timestamp) to ntcore itself.  On topics the library writes the timestamps are not
+    # compared: the property does not say how a tunable stamps its writes.
+    free_keys = []
+    if paused or stamping:
+        for j in range(r.choice([1, 1, 2])):
+            kind = r.choice(KINDS)
+            free_keys.append(("/client%s/k%d" % (tag, j), (ARRAY_TS if kind[1] else SCALAR_TS)[kind[0]], kind))
+    free_vals = {}
+
+    def gen_free():
+        key, ts, kind = r.choice(free_keys)
+        k = r.random()
+        if k < 0.55:
+            if key in free_vals and r.random() < 0.25:
+                v = free_vals[key]                  # the same value again: a duplicate
+            else:
+                v = gen_value(r, kind)
+            free_vals[key] = v
+            return ["ntw", key, ts, v] + gen_stamp()
+        return ["ntt", key] if (paused and k < 0.85) else ["ntr", key]
+
     def gen_truth(i):
         # falsy is where an owner differs from an ordinary object: it is the common state
         # (every such owner is created falsy, and most setups / reads happen while it is)
@@ -1359,6 +1382,9 @@ def gen_case(r, tag):
             continue
         if paused and r.random() < 0.1:
             ops.append(["tick", r.choice([20000, 20000, 5000, 1, 1, 0])])
+            continue
+        if free_keys and r.random() < 0.12:
+            ops.append(gen_free())
             continue
         if pending and (not bound or r.random() < 0.35):
             i = pending.pop()
@@ -1428,9 +1454,6 @@ def gen_case(r, tag):
             ops.append(["ntw", key, ts, gen_value(r, kind)] + gen_stamp())
         elif k < 0.95 and known_keys:
             key, ts, kind = r.choice(known_keys)
-            if paused and r.random() < 0.2:
-                ops.append(["ntt", key])            # the topic's timestamp (comparable under the paused clock)
-                continue
             if r.random() < 0.1:                    # a near miss: nothing may live there
                 key = r.choice([key + "/" + (d["subtable"] or "cfg"), key.rsplit("/", 1)[0], key + "_"])
             ops.append(["ntr", key])
@@ -1450,8 +1473,8 @@ def gen_case(r, tag):
     for key, ts, kind in known_keys[:8]:
         if r.random() < 0.5:
             ops.append(["ntr", key])
-        elif paused and r.random() < 0.3:
-            ops.append(["ntt", key])
+    for key, ts, kind in free_keys:
+        ops.append(["ntt", key] if paused else ["ntr", key])
     for key in ghost_keys[:6]:
         if r.random() < 0.5:
             ops.append(["ntr", key])
@@ -2783,6 +2806,17 @@ def violation_of_case(mt, case, shrink=True):
     return v
 
 
+def describe_op(op):
+    if op[0] != "clsset":
+        return json.dumps(op)
+    m = op[2]
+    if is_plain(m):
+        return '["clsset", "Cls%d.%s = %s"]' % (op[1], m["attr"], json.dumps(m["plain"]))
+    return '["clsset", "Cls%d.%s = tunable(%s%s%s)"]' % (
+        op[1], m["attr"], json.dumps(m["default"]), "" if m.get("wd") is None else ", writeDefault=%r" % m["wd"],
+        "" if m.get("subtable") is None else ", subtable=%r" % m["subtable"])
+
+
 def describe_env(c):
     """one line: the environment of the history and its operations."""
     parts = ["NT clock paused, stepped by the `tick` ops (every operation in between carries the same timestamp)"
@@ -2791,11 +2825,7 @@ def describe_env(c):
         parts.append("instances constructed by the `new` ops")
     if any(op[0] == "ntw" and len(op) > 4 for op in c["ops"]):
         parts.append("5th field of an `ntw` op = the timestamp the client gives its update (same: that of the value the topic holds; now; older)")
-    return "; ".join(parts) + ": " + " ".join(
-        json.dumps(op if op[0] != "clsset" else ["clsset", "Cls%d.%s = %s" % (op[1], op[2]["attr"], "<plain>" if is_plain(op[2]) else
-                   "tunable(%s%s%s)" % (json.dumps(op[2]["default"]),
-                                        "" if op[2].get("wd") is None else ", writeDefault=%r" % op[2]["wd"],
-                                        "" if op[2].get("subtable") is None else ", subtable=%r" % op[2]["subtable"]))]) for op in c["ops"][:12])
+    return "; ".join(parts) + ": " + " ".join(describe_op(op) for op in c["ops"][:12])
 
 
 def env_counters(ctx, c):
@@ -3206,7 +3236,7 @@ def replay(ctx, obj):
                     "; ".join(describe_decl(d, 0) for d in ds)))
         o = exec_case(mt, c)
         for op, ob in zip(c["ops"], o):
-            print("  %-90s -> %s" % (json.dumps(op)[:90], json.dumps(ob)[:120]))
+            print("  %-90s -> %s" % (describe_op(op)[:140], json.dumps(ob)[:120]))
         v = oracle_case(c, o)
         if v is not None:
             print("fails: %s" % v["what"])
